@@ -271,7 +271,7 @@ func writeEvidence(path string, prop string, cfg runConfig, res *runResult, sel 
 		"slow_obligations":         slow,
 		"build_tags":               cfg.tags,
 		"engine_errors":            res.errors,
-		"bounded":                  []string{},
+		"bounded":                  boundedOf(res),
 	}
 	for k, v := range extra {
 		cov[k] = v
@@ -331,4 +331,17 @@ func writeViolation(dir, prop string, v *violation) string {
 	_ = os.WriteFile(fn, data, 0o644)
 	v.File = fn
 	return fn
+}
+
+// boundedOf lists the stated bounds of the contracts verified in this run.
+func boundedOf(res *runResult) []string {
+	out := []string{}
+	for _, k := range res.funcs {
+		if c, ok := res.engine.db.Contracts[k]; ok {
+			for _, b := range c.Bounded {
+				out = append(out, shortKeyName(k)+": "+b)
+			}
+		}
+	}
+	return out
 }
